@@ -33,6 +33,11 @@ CLAIMED = {
    note="Trusted: Coq kernel + vm_compute; correspondence driver (drives async_handle/async_handled and dispatch_recevied_data as consume()/the engine thread do; the polling loop itself is C07/C20). Closed under the global context.",
    technique="Rocq proof by induction over histories with a state invariant + differential history correspondence",
    design="3/C05"),
+ "C01": dict(
+   text="Machine-checked proof over a model of the simulator's segment chain and of both clients' assembly loops: the chain for any request with length > 0 is well formed and its data is the spa's bytes over ceil(len/39) segments clipped at the block end; for ANY event list drawn from a well-formed chain and timeouts (= every pattern of lost, duplicated, re-ordered, delayed segments and duplicated requests) the client block is either untouched or exactly the old block with the whole chain spliced in, never a partial / duplicated / mis-ordered set, with at most `retries` (async) resp. 1+`retries` (threaded) requests; fault-free delivery succeeds with one request; byte-level meaning of success proved (requested bytes = spa's, every other byte untouched or spa's). Correspondence: the real simulator chain for boundary (start,len), and real GeckoAsyncStructure.get (virtual-time loop) / real GeckoStructure + engine retry steps under fault scripts, (status, #STATU, final block) vs the model.",
+   note="Trusted: Coq kernel + vm_compute; correspondence driver + virtual-time loop; wait_for_response abstracted to handled/timed-out (its polling is C06/C07). One genuine defect repaired (fix c80e92e: chain never ended when length is a multiple of 39). Zero-length requests have no segments and cannot complete (excluded: 0 < len). Closed under the global context.",
+   technique="Rocq proof by inductive invariant over arbitrary event lists (accumulator = prefix of the chain) + list/slice lemmas for the chain + differential correspondence under fault scripts",
+   design="3/C01"),
 }
 
 REASON_PENDING = "check not built yet in this round (model and correspondence under construction; see DESIGN.md section 8)"
